@@ -135,7 +135,10 @@ def impl(case):
     signal.alarm(60)
     try:
         return thr_tramp.run_single(case)
-    except TimeoutError:
+    except Exception as e:  # noqa
+        if not isinstance(e, TimeoutError):
+            # the scheduler itself raised although no action raises: the property's own failure, not a harness fault
+            return {"events": [], "done": False, "idle": None, "queue": None, "clock": None, "raised": type(e).__name__}
         # the code under test did not return: that is the property's own failure (scheduled actions never get to run), not a harness fault
         return {"events": [], "done": False, "idle": None, "queue": None, "clock": None, "hang": True}
     finally:
@@ -166,6 +169,8 @@ def oracle(case, out):
 
     if case["op"] == "threads":
         return out.get("oracle")
+    if out.get("raised"):
+        return f"a schedule call raised {out['raised']} although no action raises"
     if out.get("hang"):
         return "the scheduling call did not return (event budget / 60 s) (livelock in the drain loop)"
     return thr_tramp.oracle_events(out["events"]) or thr_tramp.all_run(out["events"]) or (None if out["idle"] and out["queue"] == 0 else "trampoline not idle/empty after the run")
